@@ -90,7 +90,7 @@ var baseWeights = Weights{
 	"issue": 6, "setrole": 6, "unsetrole": 1, "transfer": 10, "nfttransfer": 8, "multi": 10, "mint": 3, "localburn": 2, "burn": 2,
 	"create": 7, "addq": 2, "nftburn": 2, "adduri": 2, "update": 2, "freeze": 2, "unfreeze": 2, "wipe": 1, "pause": 1, "unpause": 2,
 	"handover": 2, "seedhandover": 1, "deliver": 14, "redeliver": 1, "changeowner": 1, "claim": 1, "setusername": 1, "skv": 2,
-	"payable": 2, "gas": 1, "epoch": 1, "mutate": 8, "unstructured": 4, "plant": 0,
+	"payable": 2, "gas": 1, "epoch": 1, "mutate": 8, "unstructured": 4, "plant": 0, "replace": 1,
 }
 
 func (w Weights) with(over Weights) Weights {
@@ -721,6 +721,10 @@ func (g *Gen) byKind(kind string) Op {
 		a := g.addr("pay-addr")
 		g.Layer = "env"
 		return Op{Kind: "payable", Shard: g.shard(a), Addr: a, Mode: pickFrom(g, "pay-mode", []int{0, 1, 1, 2})}
+	case "replace":
+		g.Layer = "env"
+		g.Shape = append(g.Shape, "container-entry-replaced")
+		return Op{Kind: "replace", Shard: g.pick("replace-shard", m.NShards), Token: HB(pickFrom(g, "replace-fn", protocolFunctionNames))}
 	case "gas":
 		g.Layer = "env"
 		return g.genGasOp()
